@@ -8,6 +8,8 @@ Rules
   R7.3  rewriters: in every _rewrite_ser_data the removed children equal the inserted children, only data children
         (tx/cat/val/xVal/yVal/bubbleSize) are touched, and the inserters are the generated schema-positioned ones
   R7.4  series idx/order: writers take both from series.index; cloned series take max(existing over all plots)+1
+  R7.6  date categories: epochs and the 1900 leap-year compatibility rule of Category._excel_date_number equal the
+        standard's definition (shared with C08 R8.4)
   R7.5  every c:ptCount/@val is the length of the same sequence the sibling c:pt iteration walks
 """
 
@@ -289,8 +291,12 @@ def run(ctx):
     f = base.methods.get("_add_cloned_sers") if base else None
     if f is None:
         raise AnalysisError("anchor vanished: _BaseSeriesXmlRewriter._add_cloned_sers")
-    u = ast.unparse(f.node)
-    if "new_ser.idx.val = plotArea.next_idx" in u and "new_ser.order.val = plotArea.next_order" in u:
+    got = set()
+    for n in ast.walk(f.node):
+        if isinstance(n, ast.Assign) and isinstance(n.targets[0], ast.Attribute) and n.targets[0].attr == "val" \
+                and isinstance(n.targets[0].value, ast.Attribute) and isinstance(n.value, ast.Attribute):
+            got.add((n.targets[0].value.attr, n.value.attr))
+    if {("idx", "next_idx"), ("order", "next_order")} <= got:
         ctx.ok("R7.4", "_add_cloned_sers", sample={"clone": "idx <- next_idx, order <- next_order"})
     else:
         ctx.violation("R7.4", "_add_cloned_sers", "cloned series do not take idx/order from the allocators", file=f.file,
@@ -301,3 +307,9 @@ def run(ctx):
     from checks import c07_ptcount
 
     c07_ptcount.run(ctx, prog, S, M, T, all_markers)
+
+    # -- R7.6 ------------------------------------------------------------------------------------
+    ctx.rule("R7.6", "date category labels are cached as serial numbers of the standard's 1900 / 1904 date systems")
+    from checks.c08 import date_system_rule
+
+    date_system_rule(ctx, prog, "R7.6")
